@@ -210,7 +210,7 @@ def install_shims(rec):
 BOX = {"r": (0.2, 1.0), "alpha": (0.4, 1.3), "lens_angle": (0.3, 1.2)}
 
 
-def gen_problem(rng, theory_kind, prior_mode, size=None):
+def gen_problem(rng, theory_kind, prior_mode, size=None, offset=None):
     """dict(n, truth{name: value}, start{...}, noise_sd, theory_kind, prior_mode, spec{name: prior spec})"""
     n = size or rng.choice([12, 13, 14, 15, 16, 17, 18, 20])
     sp = 0.1
@@ -238,8 +238,16 @@ def gen_problem(rng, theory_kind, prior_mode, size=None):
         elif rng.random() < 0.2 and k in ("r", "center.0"):
             kind = rng.choice(["Uhalf", "Ufree"]) if k == "center.0" else "Uhalf"
         spec[k] = dict(kind=kind, lo=lo, hi=hi, sd=0.1 * abs(v) * rng.choice([0.5, 1.0, 2.0]))
-    return dict(n=n, spacing=sp, truth=truth, start=start, noise_sd=rng.choice([1.0, 0.5, 0.25, 2.0]),
-                theory_kind=theory_kind, prior_mode=prior_mode, spec=spec)
+    noise_sd = rng.choice([1.0, 0.5, 0.25, 2.0])
+    if offset:
+        # the data is a crop of a larger image: its x / y coordinates start at offset * spacing, not at 0
+        for ax, o in (("center.0", offset[0] * sp), ("center.1", offset[1] * sp)):
+            truth[ax] += o
+            start[ax] += o
+            spec[ax]["lo"] += o
+            spec[ax]["hi"] += o
+    return dict(n=n, spacing=sp, truth=truth, start=start, noise_sd=noise_sd,
+                theory_kind=theory_kind, prior_mode=prior_mode, spec=spec, offset=list(offset) if offset else None)
 
 
 def make_prior(spec, guess):
@@ -273,8 +281,12 @@ def build_model(pb, guess, spec_override=None):
 def make_data(pb):
     from holopy.core.metadata import detector_grid
     model = build_model(pb, pb["truth"])
-    det = detector_grid(pb["n"], pb["spacing"])
-    return model.forward(dict(pb["truth"]), det)
+    off = pb.get("offset") or [0, 0]
+    det = detector_grid((pb["n"] + off[0], pb["n"] + off[1]), pb["spacing"])
+    full = model.forward(dict(pb["truth"]), det)
+    if off[0] or off[1]:
+        full = full.isel(x=slice(off[0], None), y=slice(off[1], None))     # a cropped hologram
+    return full
 
 
 def make_strategy(kind, npixels, seed=None):
@@ -532,7 +544,9 @@ def saveload_check(ctx, skind, strategy, model, data, result, touched, pb, tmpdi
 def run_case(ctx, k, rng, rec, exprs, metas, tmpdir, combo):
     import numpy as np
     theory_kind, skind, use_subset, prior_mode = combo
-    pb = gen_problem(rng, theory_kind, prior_mode)
+    offset = (rng.randint(1, 6), rng.randint(1, 6)) if k % 2 == 1 else None
+    pb = gen_problem(rng, theory_kind, prior_mode, offset=offset)
+    ctx.count("data:%s" % ("cropped (coordinates do not start at 0)" if offset else "origin 0"))
     n2 = pb["n"] ** 2
     npixels = rng.choice([n2 // 3, n2 // 2, 60]) if use_subset else None
     seed = rng.choice([None, 7, 11]) if (skind == "nmpfit" and use_subset) else None
